@@ -348,8 +348,10 @@ where
         let empty_set = HashSet::new();
         let pred_node_names = self.predecessors.get(&name.clone()).unwrap_or(&empty_set);
         let succ_node_names = self.successors.get(&name.clone()).unwrap_or(&empty_set);
+        // a self-loop is both an in-edge and an out-edge: list it once, with the out-edges
         let pred_edges = pred_node_names
             .iter()
+            .filter(|pnn| **pnn != name)
             .flat_map(|pnn| self.edges.get(&(pnn.clone(), name.clone())).unwrap());
         let succ_edges: Vec<&Arc<Edge<T, A>>> = succ_node_names
             .iter()
